@@ -183,10 +183,10 @@ def matches_ignore_patterns(file_path: Any, patterns: Any, project_root: Any = N
     from src.linter_config.pattern_utils import matches_pattern
 
     path = Path(str(file_path))
-    if project_root and path.is_absolute():
-        with suppress(ValueError):
-            path = path.relative_to(Path(str(project_root)))
-    if path.is_absolute():
+    if project_root:
+        with suppress(ValueError, OSError):
+            path = path.resolve().relative_to(Path(str(project_root)).resolve())
+    if path.is_absolute() or ".." in path.parts:
         # Outside the project: only match whole trailing path segments, so that directory
         # names leading to the file (e.g. a temp dir called test_xyz) cannot trigger a pattern.
         return any(path.match(str(pattern)) for pattern in patterns)
@@ -309,6 +309,28 @@ def resolve_file_path(context: BaseLintContext) -> str:
         File path string, or "unknown" if not available
     """
     return str(context.file_path) if context.file_path else "unknown"
+
+
+def path_in_project(context: BaseLintContext) -> str:
+    """Path of the linted file inside the project, for path-based heuristics.
+
+    Test-file and ignore heuristics (``/tests/``, ``test_``, ``examples/`` ...) must look at the
+    path inside the project, never at the directories leading to it: a project checked out
+    under ``/ci/tests/build-1/`` is not test code. Returns "/<project-relative posix path>"
+    when the file lies inside the project root known to the context, else the path as given.
+    """
+    file_path = context.file_path
+    if not file_path:
+        return "unknown"
+    from pathlib import Path
+
+    metadata = getattr(context, "metadata", None)
+    project_root = metadata.get("_project_root") if isinstance(metadata, dict) else None
+    if project_root:
+        with suppress(ValueError, OSError):
+            relative = Path(str(file_path)).resolve().relative_to(Path(str(project_root)).resolve())
+            return "/" + relative.as_posix()
+    return str(file_path)
 
 
 def is_ignored_path(file_path: str, ignore_patterns: list[str]) -> bool:
